@@ -29,10 +29,13 @@ impl Iterator for Points {
     type Item = Point;
 
     fn next(&mut self) -> Option<Self::Item> {
-        self.current_scanline.next().or_else(|| {
+        loop {
+            if let Some(point) = self.current_scanline.next() {
+                return Some(point);
+            }
+
             self.current_scanline = self.scanlines.next()?;
-            self.current_scanline.next()
-        })
+        }
     }
 }
 
@@ -66,7 +69,8 @@ impl Iterator for Scanlines {
 
         let scaled_y = y * 2 - self.center_2x.y;
 
-        self.columns
+        let scanline = self
+            .columns
             .clone()
             // Find the first pixel that is inside the ellipse.
             .find(|x| {
@@ -75,6 +79,10 @@ impl Iterator for Scanlines {
             })
             // Shorten the right side of the scanline by the same amount as the left side.
             .map(|x| Scanline::new(y, x..self.columns.end - (x - self.columns.start)))
+            // Rows that contain no pixel are empty, but don't end the iteration.
+            .unwrap_or_else(|| Scanline::new_empty(y));
+
+        Some(scanline)
     }
 }
 
